@@ -43,7 +43,9 @@ META = {
         "Static coherence analysis of EquationSystem's DOF layout. Decided: (R1) on the statement CFG of every "
         "method, each write to _variables/_variable_dof_type/_variable_numbers/_variable_num_dofs (subscript store, "
         "del, in-place mutator call, attribute rebinding, or a call of _append_dofs) outside the three layout "
-        "primitives is post-dominated (normal exits) by <receiver>._cluster_dofs_gridwise(); __init__ creates empty "
+        "primitives is post-dominated by <receiver>._cluster_dofs_gridwise() both towards the normal exits and towards every "
+        "explicit `raise` reachable after the write (an exception raised while validating a later item must not leave a live "
+        "object with stale block sizes); __init__ creates empty "
         "containers; _append_dofs numbers the new block len(_variable_numbers) (read before the insertion) and "
         "appends its size at the END of _variable_num_dofs; every _append_dofs call is dominated by the write of "
         "_variable_dof_type[<same variable>.id]. (R2) _cluster_dofs_gridwise iterates mdg.subdomains() then "
@@ -55,8 +57,10 @@ META = {
         "hstack((0, cumsum(_variable_num_dofs))) indexed [n], [n+1] with n = _variable_numbers[var.id]; identify_dof "
         "is argmax(offsets > dof) - 1; projection_to sorts the column indices and builds (arange, indices) with "
         "shape (n, num_dofs); get/set_variable_values iterate _variable_numbers (whose insertion order R2 makes the "
-        "block order), set_variable_values sizes each slice through the paired number and advances the cursor after "
-        "every written block. (R4) block-size formulas pair num_X with get('X'). NOT decided: that the resulting "
+        "block order), set_variable_values sizes each slice through the paired number, advances the cursor after "
+        "every written block, and every requested variable reaches set_solution_values on every path through the loop body "
+        "(empty blocks included); index-space typing: a block number (argmax-1, _variable_numbers[..]) may only subscript "
+        "block-ordered containers (offsets, _variable_num_dofs), never self.variables/_variables (creation order). (R4) block-size formulas pair num_X with get('X'). NOT decided: that the resulting "
         "index sets partition 0..num_dofs-1 for a concrete history (the runtime consequence), that mdg.subdomains() "
         "/interfaces() return a stable sorted order (C24), values stored by ad_utils (C08)."),
     "rule_text": ("one obligation per (state write site | _append_dofs call | structural clause of "
@@ -64,7 +68,8 @@ META = {
     "trusted_base": ["python ast", "sa.core (loader, astutil, cfg: statement CFG + post-dominators via networkx)",
                      "dict preserves insertion order (language guarantee since 3.7)",
                      "numpy: cumsum/hstack/argmax/arange/sort semantics"],
-    "assumptions": ["mdg.subdomains()/interfaces() without arguments return every grid once in a fixed order (C24)",
+    "assumptions": ["only explicit `raise` statements are modelled as exceptional exits (implicit KeyError/IndexError are not)",
+                    "mdg.subdomains()/interfaces() without arguments return every grid once in a fixed order (C24)",
                     "no code outside EquationSystem writes the four attributes (swept in the thorough tier)",
                     "Variable.id is unique per variable"],
     "technique": "CFG post-dominance/dominance for writer discipline + shape/dataflow matching of the renumbering loop and of each reader's offset derivation",
@@ -228,12 +233,23 @@ def _check_writer(ctx: Ctx, rel: str, qual: str, fn: ast.FunctionDef) -> int:
             if cn != wn and g.postdominates(cn, wn):
                 ok = True
                 break
-        ctx.check("R1", ok, rel, qual, stmt,
-                  f"write to {recv}.{attr} ({how}) is not followed on every normally-returning path by "
-                  f"{recv}.{RECLUSTER}(): block numbers/sizes are left stale or not grid-wise ordered",
+        # the same on paths that leave through an explicit `raise` (e.g. the validation of the NEXT loop item):
+        # the object stays alive after the exception, so the layout must already be re-clustered when it is raised
+        ok_raise = True
+        if ok and g.reachable(wn, cfgmod.RAISE):
+            ok_raise = any(crecv == recv and g.node_for(_cfg_stmt(g, fn, cst)) != wn
+                           and g.postdominates(g.node_for(_cfg_stmt(g, fn, cst)), wn, exit_node=cfgmod.RAISE)
+                           for cst, crecv in rec)
+        msg = (f"write to {recv}.{attr} ({how}) is not followed on every normally-returning path by "
+               f"{recv}.{RECLUSTER}(): block numbers/sizes are left stale or not grid-wise ordered")
+        if ok and not ok_raise:
+            msg = (f"after the write to {recv}.{attr} ({how}) an explicit `raise` can be reached before {recv}.{RECLUSTER}() "
+                   f"has run (e.g. the validation of a later loop item fails): the exception leaves _variable_num_dofs / "
+                   f"_variable_numbers stale in a live object; re-cluster inside the same iteration or validate before mutating")
+        ctx.check("R1", ok and ok_raise, rel, qual, stmt, msg,
                   construct=f"{how} {recv}.{attr} :: {u(stmt)[:120]}",
-                  desc=f"write to {recv}.{attr} ({how}) is post-dominated by {recv}.{RECLUSTER}()",
-                  facts={"receiver": recv, "attr": attr, "how": how,
+                  desc=f"write to {recv}.{attr} ({how}) is post-dominated by {recv}.{RECLUSTER}() on return and on raise paths",
+                  facts={"receiver": recv, "attr": attr, "how": how, "normal_paths": ok, "raise_paths": ok_raise,
                          "recluster_calls": [f"{r}.{RECLUSTER}()" for _, r in rec]})
     return len(writes)
 
@@ -816,6 +832,10 @@ def _check_dofs_of(ctx: Ctx, rel: str, fn: ast.FunctionDef) -> None:
     ctx.check("R3", klo == 0, rel, q, ar, "block n starts at offsets[n]", construct=f"arange start offsets[n+{klo}]")
     ctx.check("R3", khi == 1, rel, q, ar, "block n ends (exclusive) at offsets[n+1]", construct=f"arange stop offsets[n+{khi}]")
     ctx.sample({"rule": "R3", "reader": "dofs_of", "start": u(lo), "stop": u(hi)})
+    nums = {s.targets[0].id for s in walk_local(fn) if isinstance(s, ast.Assign) and len(s.targets) == 1 and isinstance(s.targets[0], ast.Name)
+            and isinstance(s.value, ast.Subscript) and _is_self_attr(s.value.value, "_variable_numbers")}
+    if nums:
+        _block_number_subscripts(ctx, rel, q, fn, nums)
 
 
 def _check_identify_dof(ctx: Ctx, rel: str, fn: ast.FunctionDef) -> None:
@@ -856,6 +876,8 @@ def _check_identify_dof(ctx: Ctx, rel: str, fn: ast.FunctionDef) -> None:
     if not (isinstance(st, ast.Assign) and isinstance(st.targets[0], ast.Name)):
         raise Undecided(f"{q}: block number not bound to a name")
     N = st.targets[0].id
+    # index-space typing: N is a BLOCK number; it may index block-ordered containers only
+    misuse = _block_number_subscripts(ctx, rel, q, fn, {N})
     # id lookup: the id whose number equals N, over _variable_numbers.items()
     found = False
     for comp in [n for n in walk_local(fn) if isinstance(n, (ast.ListComp, ast.GeneratorExp, ast.SetComp))]:
@@ -870,8 +892,54 @@ def _check_identify_dof(ctx: Ctx, rel: str, fn: ast.FunctionDef) -> None:
                       "the owning id is the key of _variable_numbers whose value equals the block number",
                       construct=u(comp))
             found = True
-    if not found:
+    if not found and not misuse:
         raise Undecided(f"{q}: lookup of the id through _variable_numbers.items() not found")
+
+
+def _creation_ordered(fn: ast.AST, e: ast.expr, depth: int = 0) -> Optional[str]:
+    """Why `e` is a sequence in CREATION order (None if it is not known to be one)."""
+    x = e
+    if isinstance(x, ast.Call) and call_name(x) in ("list", "tuple") and len(x.args) == 1:
+        x = x.args[0]
+    if _is_self_attr(x, "variables"):
+        return "self.variables lists _variables.values() in creation order"
+    base = x.func.value if isinstance(x, ast.Call) and isinstance(x.func, ast.Attribute) and x.func.attr in ("values", "keys", "items") else x
+    if _is_self_attr(base, "_variables") or _is_self_attr(base, "_variable_dof_type"):
+        return f"{u(x)} is in creation order"
+    if isinstance(x, (ast.ListComp, ast.GeneratorExp)) and len(x.generators) == 1:
+        return _creation_ordered(fn, x.generators[0].iter, depth + 1)
+    if isinstance(x, ast.Name) and depth < 3:
+        st = _all_name_stores(fn, x.id)
+        if len(st) == 1 and isinstance(st[0], ast.Assign):
+            return _creation_ordered(fn, st[0].value, depth + 1)
+    return None
+
+
+def _block_number_subscripts(ctx: Ctx, rel: str, q: str, fn: ast.FunctionDef, numbers: set[str]) -> int:
+    """Every `X[n]` / `X[n +- k]` with n a block number: X must be block-ordered (the offsets, _variable_num_dofs).
+    Indexing a creation-ordered container with a block number is a finding; returns the number of findings."""
+    bad = 0
+    for n in walk_local(fn):
+        if not isinstance(n, ast.Subscript) or isinstance(n.slice, ast.Slice):
+            continue
+        if not any(_idx_plus(n.slice, nm) is not None for nm in numbers):
+            continue
+        base = n.value
+        why = _creation_ordered(fn, base)
+        if why is not None:
+            ok = False
+        elif _is_self_attr(base, "_variable_num_dofs") or (isinstance(base, ast.Name) and any(
+                _offsets_kind(s.value) is not None for s in _all_name_stores(fn, base.id) if isinstance(s, ast.Assign))):
+            ok, why = True, "block-ordered"
+        else:
+            raise Undecided(f"{q}: block number indexes an unclassified container {u(base)[:60]}")
+        bad += not ok
+        ctx.check("R3", ok, rel, q, n,
+                  f"a block number indexes `{u(base)[:50]}`: {why}; block order differs from creation order as soon as variables are "
+                  f"created grid-interleaved or after a removal - the variable must be found through _variable_numbers",
+                  construct=f"{u(n)[:80]} (block number into {'block' if ok else 'creation'}-ordered container)",
+                  desc=f"block number indexes block-ordered `{u(base)[:40]}`")
+    return bad
 
 
 def _check_projection_to(ctx: Ctx, rel: str, fn: ast.FunctionDef) -> None:
@@ -1073,6 +1141,26 @@ def _check_set_values(ctx: Ctx, rel: str, fn: ast.FunctionDef) -> None:
     ctx.check("R3", ok_pass, rel, q, sc,
               f"the slice is stored for the variable _variables[{idn}] of the same iteration",
               construct=f"set_solution_values args {[u(x)[:50] for x in args[:3]]}")
+    # every selected variable reaches the store: no path through the loop body skips set_solution_values except
+    # through the not-selected side of a membership test of the iterated id
+    import networkx as nx
+    g2 = g.g.copy()
+    scn = g.node_for(_cfg_stmt(g, fn, sc_stmt))
+    g2.remove_node(scn)
+    for tn, ts in list(g.stmt.items()):
+        if isinstance(ts, ast.If) and isinstance(ts.test, ast.Compare) and len(ts.test.ops) == 1 and u(ts.test.left) == idn \
+                and isinstance(ts.test.ops[0], (ast.In, ast.NotIn)) and tn in g2:
+            skip_cond = isinstance(ts.test.ops[0], ast.NotIn)  # edge taken when the id is NOT requested
+            for _, m_, d_ in list(g2.out_edges(tn, data=True)):
+                if d_.get("cond") is skip_cond:
+                    g2.remove_edge(tn, m_)
+    entries = [m_ for _, m_, d_ in g.g.out_edges(ln, data=True) if d_.get("cond") is True and m_ in g2]
+    skipping = any(nx.has_path(g2, e_, ln) for e_ in entries)
+    ctx.check("R3", not skipping, rel, q, sc,
+              "a requested variable can pass through the loop body without its (possibly empty) slice being stored: the block "
+              "stays unset in the data dictionary and a later get_variable_values raises / the round trip loses the variable",
+              construct="set_variable_values: path through the loop body that skips set_solution_values for a requested variable",
+              desc="every requested variable reaches set_solution_values on every path through the loop body")
     # advance: every path from the slice back to the loop header passes `a = b` (or a += size)
     adv = [s for s in a_stores if _inside(pm, s, loop)]
     good_adv = [s for s in adv if (isinstance(s, ast.Assign) and u(s.value) == b)
@@ -1244,6 +1332,18 @@ MUTANTS = [
     _m("remove-variables-no-recluster",
        "            # Update the variable clustering. This also updates _variable_num_dofs.\n            self._cluster_dofs_gridwise()\n",
        "            # Update the variable clustering. This also updates _variable_num_dofs.\n            pass\n", "R1", control=True),
+    _m("seed-recluster-after-loop",
+       "            # Update the variable clustering. This also updates _variable_num_dofs.\n            self._cluster_dofs_gridwise()\n",
+       "        # Update the variable clustering. This also updates _variable_num_dofs.\n        self._cluster_dofs_gridwise()\n", "R1"),
+    _m("seed-identify-dof-indexes-creation-order",
+       "        id_ = [\n            id_ for id_, num in self._variable_numbers.items() if num == variable_number\n        ]\n"
+       "        # sanity check that only 1 ID was found\n        assert len(id_) == 1, \"Failed to find unique ID corresponding to `dof`.\"\n"
+       "        # find variable with the ID\n        variable = [var for _id, var in self._variables.items() if _id == id_[0]]\n"
+       "        assert len(variable) == 1, \"Failed to find Variable corresponding to `dof`.\"\n        return variable[0]\n",
+       "        return self.variables[variable_number]\n", "R3"),
+    _m("seed-set-values-skips-empty-blocks",
+       "                num_dofs = int(self._variable_num_dofs[variable_number])\n",
+       "                num_dofs = int(self._variable_num_dofs[variable_number])\n                if num_dofs == 0:\n                    continue\n", "R3"),
     _m("create-variables-no-recluster", "        # New optimized order\n        self._cluster_dofs_gridwise()\n",
        "        # New optimized order\n        pass\n", "R1"),
     _m("subsystem-no-recluster", "        new_equation_system._cluster_dofs_gridwise()\n", "        pass\n", "R1"),
